@@ -1,5 +1,5 @@
 """Single source of truth for MANIFEST.json (bin/mkmanifest)."""
-HOOK_COMMITS = ["66e123d44", "a77628d66"]   # tools::Mutex/Thread yield points; ProgObserver/WRITE_JOBS job-file protocol events
+HOOK_COMMITS = ["66e123d44", "a77628d66", "cf4947e1c"]   # Mutex/Thread yield points; ProgObserver/WRITE_JOBS events; mutex init/destroy
 NOTES = ("Every check is `bin/vcheck <id> --tier quick|thorough`: TLC model-checks the TLA+ specification in "
          "spec/<engine>, exports behaviours/vectors, a C++ driver replays them into the real votca code built "
          "from /repo's working tree (and/or traces recorded from the real code are validated by TLC). Exit 2 = "
